@@ -557,6 +557,11 @@ def run_multi_key(ctx):
     def p_smulti(op, a, real):
         if "crash" in real:
             return None
+        if "_declared" in a:
+            if real.get("ok"):
+                return ("sig:silently-different", "a signature was made (%s) although the key declares %s: %s" % (
+                    json.dumps((G.merged_header(real["jws"]) or {}).get("alg")), a["_declared"], a["_why"]))
+            return None
         if not real.get("ok"):
             return ("sig:refused", "one call for several keys refused (%s)" % a["_why"])
         sigs = real["jws"].get("signatures")
@@ -567,9 +572,19 @@ def run_multi_key(ctx):
             if h.get("alg") != want:
                 return ("sig:recorded", "signature %d: merged header names %r, the algorithm for its key is %s (%s)" % (i, h.get("alg"), want, a["_why"]))
         return None
+    # nothing named, the key declares an algorithm that is not a signature algorithm: nothing may be applied in its place
+    for kn, decl in (("oct-32", "A256KW"), ("oct-64", "A256GCM"), ("oct-32", "dir"), ("oct-64", "A128CBC-HS256"), ("EC-P256", "ECDH-ES"), ("RSA-2048", "RSA-OAEP")):
+        for tmpl in (None, {}, {"protected": {"kid": "k"}}):
+            a = {"jws": {"payload": "cGF5"}, "jwk": dict(pool[kn], alg=decl), "rnd": [rng.randbytes(32).hex()], "_declared": decl,
+                 "_why": "key declares %s, nothing named, template %s" % (decl, json.dumps(tmpl))}
+            if tmpl is not None:
+                a["sig"] = tmpl
+            sops.append(("jws.sig", a))
     real, model = C03.compare(ctx, sops, p_smulti)
     ver = []
     for (op, a), r in zip(sops, real):
+        if "_declared" in a:
+            continue
         if r.get("ok") and isinstance(r["jws"].get("signatures"), list):
             for i, k in enumerate(a["_keys"]):
                 if i < len(r["jws"]["signatures"]):
